@@ -2158,3 +2158,25 @@ def cease_subcodes(rnd=None):
                 b.adv(1)
                 out.append(b.tag("pace", "nodamp", "passive" if d == "in" else "active").build())
     return out
+
+
+def dial_params():
+    """C20/C11: every outbound attempt of a peer goes to its configured port, from its configured local address."""
+    out = []
+    combos = [(179, "", "10.0.0.2"), (1, "", "10.0.0.2"), (1790, "10.0.0.1", "10.0.0.2"), (65535, "10.0.0.7", "10.0.0.2"),
+              (179, "2001:db8::1", "2001:db8::2"), (1179, "", "2001:db8::2")]
+    for port, la, remote in combos:
+        ps = [peer("p1", remote, port=port, localAddr=la, idleHold=sec(2), connRetry=sec(3)),
+              peer("p2", "10.0.0.3", remoteAS=65003, port=179 if port != 179 else 2179, localAddr="10.0.0.1" if not la else "")]
+        b = Sb("dialp-%d-%s-%s" % (port, la or "any", remote), ps)
+        b.start()
+        b.dial_refuse("p1").dial_refuse("p2").advu(sec(2) - 1).advu(1)
+        b.adv(3)                                    # connect-retry: the stalled attempts are replaced
+        c1 = b.dial_ok("p1")
+        b.open(c1, "p1", rid=remote if ":" not in remote else "10.0.0.2").ka(c1)
+        c2 = b.dial_ok("p2")
+        b.open(c2, "p2", rid="10.0.0.3").ka(c2).rclose(c1).adv(2)
+        c3 = b.dial_ok("p1")
+        b.adv(1)
+        out.append(b.tag("pace", "dialp").build())
+    return out
